@@ -213,10 +213,16 @@ fn main() {
                     kes_evolutions: s.kes_evolutions,
                 };
                 let ev = a.kes_evolutions.map(|e| *e).unwrap_or(0);
+                let stm_params = fixture.protocol_parameters().into();
                 let run = |p: SignerRegistrationParameters| -> String {
                     let mut reg = ProtocolKeyRegistration::init(&dist);
                     match reg.register(p) {
-                        Ok(id) => format!("ok:{}", if id == a.party_id { "A" } else if id == b.party_id { "B" } else { "other" }),
+                        Ok(id) => {
+                            // the stake recorded for the party = total stake of the closed one-party registration
+                            let stake = reg.close(&stm_params).map(|c| c.total_stake).unwrap_or(0);
+                            let who = |x: u64| if x == a.stake { "stakeA".to_string() } else if x == b.stake { "stakeB".to_string() } else { x.to_string() };
+                            format!("ok:{}:{}", if id == a.party_id { "A" } else if id == b.party_id { "B" } else { "other" }, who(stake))
+                        }
                         Err(_) => "rejected".to_string(),
                     }
                 };
@@ -224,14 +230,23 @@ fn main() {
                 let mut expect = |name: &str, got: String, want: &str| {
                     out.push(format!("{}={}{}", name, if got == want { "" } else { "VIOLATED " }, got));
                 };
-                expect("honest", run(base(a)), "ok:A");
-                expect("evolution_plus_1", run(SignerRegistrationParameters { kes_evolutions: Some(KesEvolutions(ev + 1)), ..base(a) }), "ok:A");
+                expect("honest", run(base(a)), "ok:A:stakeA");
+                expect("evolution_plus_1", run(SignerRegistrationParameters { kes_evolutions: Some(KesEvolutions(ev + 1)), ..base(a) }), "ok:A:stakeA");
                 expect("evolution_plus_2", run(SignerRegistrationParameters { kes_evolutions: Some(KesEvolutions(ev + 2)), ..base(a) }), "rejected");
                 expect("evolution_max", run(SignerRegistrationParameters { kes_evolutions: Some(KesEvolutions(u64::MAX)), ..base(a) }), "rejected");
                 expect("key_of_B_with_A_cert_and_signature", run(SignerRegistrationParameters { verification_key_for_concatenation: b.verification_key_for_concatenation, ..base(a) }), "rejected");
                 expect("signature_of_B_with_A_cert_and_key", run(SignerRegistrationParameters { verification_key_signature_for_concatenation: b.verification_key_signature_for_concatenation, ..base(a) }), "rejected");
                 expect("cert_of_B_with_A_key_and_signature", run(SignerRegistrationParameters { operational_certificate: b.operational_certificate.clone(), ..base(a) }), "rejected");
-                expect("claimed_party_B", run(SignerRegistrationParameters { party_id: Some(b.party_id.clone()), ..base(a) }), "ok:A");
+                expect("claimed_party_B", run(SignerRegistrationParameters { party_id: Some(b.party_id.clone()), ..base(a) }), "ok:A:stakeA");
+                expect("claimed_party_A", run(SignerRegistrationParameters { party_id: Some(a.party_id.clone()), ..base(a) }), "ok:A:stakeA");
+                expect("no_kes_evolutions", run(SignerRegistrationParameters { kes_evolutions: None, ..base(a) }), "rejected");
+                expect("no_kes_evolutions_key_of_B", run(SignerRegistrationParameters { kes_evolutions: None, verification_key_for_concatenation: b.verification_key_for_concatenation, ..base(a) }), "rejected");
+                {
+                    // a genuine pool that is not in the distribution, claiming a pool that is
+                    let dist2: Vec<(String, u64)> = vec![(b.party_id.clone(), b.stake)];
+                    let mut reg = ProtocolKeyRegistration::init(&dist2);
+                    expect("pool_not_in_distribution_claiming_B", if reg.register(SignerRegistrationParameters { party_id: Some(b.party_id.clone()), ..base(a) }).is_ok() { "ok".to_string() } else { "rejected".to_string() }, "rejected");
+                }
                 expect("no_cert_claimed_party_A", run(SignerRegistrationParameters { party_id: Some(a.party_id.clone()), operational_certificate: None, ..base(a) }), "rejected");
                 expect("no_kes_signature", run(SignerRegistrationParameters { verification_key_signature_for_concatenation: None, ..base(a) }), "rejected");
                 {
